@@ -14,9 +14,16 @@ type Dlv struct {
 	M int `json:"m"`
 }
 
+type Opts struct {
+	Sysex bool `json:"sysex"`
+	As    bool `json:"as"`
+	Tc    bool `json:"tc"`
+}
+
 type Step struct {
-	Fn      string   `json:"fn"` // OpenIn CloseIn OpenOut CloseOut Listen Stop Send SendPar
-	M       int      `json:"m"`
+	Fn      string   `json:"fn"` // OpenIn CloseIn OpenOut CloseOut Listen ListenOpts Stop Send SendPar OpenInFail OpenOutFail
+	M       int      `json:"m"`  // 1..127 note-on key; 248 timing clock; 254 active sensing; 240 a short sysex
+	Opts    Opts     `json:"opts"`
 	Msgs    [][]int  `json:"msgs"` // SendPar: one queue per concurrent sender
 	Ret     string   `json:"ret"`  // nil | closed | err:<text>
 	Rets    []string `json:"rets"`
@@ -35,9 +42,9 @@ type History struct {
 
 // Adapter drives one real port pair.
 type Adapter interface {
-	Call(fn string, m int) string // returns nil|closed|err:..
-	Par(msgs [][]int) []string    // concurrent senders, one goroutine per queue; returns in queue order, flattened
-	Deliveries() []Dlv            // deliveries since the previous call of Deliveries, after the driver is quiescent
+	Call(fn string, m int, o Opts) string // returns nil, closed, err:..
+	Par(msgs [][]int) []string            // concurrent senders, one goroutine per queue; returns in queue order, flattened
+	Deliveries() []Dlv                    // deliveries since the previous call of Deliveries, after the driver is quiescent
 	Teardown()
 }
 
@@ -60,7 +67,7 @@ func Run(a Adapter, h *History) bool {
 					st.Rets = a.Par(st.Msgs)
 					st.Ret = "par"
 				} else {
-					st.Ret = a.Call(st.Fn, st.M)
+					st.Ret = a.Call(st.Fn, st.M, st.Opts)
 				}
 				st.Dlv = append(st.Dlv, a.Deliveries()...)
 			})
@@ -79,4 +86,31 @@ func Run(a Adapter, h *History) bool {
 		}
 	}
 	return true
+}
+
+// MsgBytes / MsgID: the harness' own numbering of test messages (no MIDI semantics: a fixed table and its inverse).
+func MsgBytes(m int) []byte {
+	switch m {
+	case 248:
+		return []byte{0xF8}
+	case 254:
+		return []byte{0xFE}
+	case 240:
+		return []byte{0xF0, 0x01, 0x02, 0xF7}
+	}
+	return []byte{0x90, byte(m), 64}
+}
+
+func MsgID(b []byte) int {
+	switch {
+	case len(b) == 1 && b[0] == 0xF8:
+		return 248
+	case len(b) == 1 && b[0] == 0xFE:
+		return 254
+	case len(b) == 4 && b[0] == 0xF0 && b[1] == 1 && b[2] == 2 && b[3] == 0xF7:
+		return 240
+	case len(b) == 3 && b[0] == 0x90 && b[2] == 64:
+		return int(b[1])
+	}
+	return -1
 }
